@@ -25,6 +25,7 @@ pub fn retired_token_phase(w: &mut crate::world::World, r: &mut Rng, lane: Lane)
     let alive_before: Vec<(usize, usize, usize)> = w.eps.iter().enumerate().flat_map(|(ei, e)| e.conns.iter().filter(|(_, c)| !c.c.is_closed() && !c.c.is_drained() && c.app.lost_count == 0).map(move |(ch, c)| (ei, *ch, c.app.lost_count as usize))).collect();
     let mut at = w.now + 1_000_000;
     let mut injected = 0;
+    w.reset_by_injected.clear();
     // (short CIDs repeat and a token is a function of its CID: a retired sequence number, or a
     // drained connection, may have carried the same token as a CID some live connection of that
     // endpoint still uses - that one legitimately resets)
@@ -53,11 +54,19 @@ pub fn retired_token_phase(w: &mut crate::world::World, r: &mut Rng, lane: Lane)
                 if injected >= 400 {
                     break;
                 }
-                let n = 25 + r.usize(40);
-                let mut data = r.bytes(n);
+                let dl = 25 + r.usize(40);
+                let mut data = r.bytes(dl);
                 data[0] = 0x40 | (data[0] & 0x3f);
                 data.extend_from_slice(tok);
                 w.inject(at, *src, dst, None, data, 0, true);
+                if std::env::var("QV_C09_DEBUG").is_ok() {
+                    let before: Vec<String> = w.eps.iter().flat_map(|e| e.conns.values().flat_map(|c| c.app.lost.clone())).collect();
+                    while w.now <= at && w.step() {}
+                    let after: Vec<String> = w.eps.iter().flat_map(|e| e.conns.values().flat_map(|c| c.app.lost.clone())).collect();
+                    if after.len() != before.len() {
+                        eprintln!("C09DEBUG token of seq {seq} (ep {ei} pair {pair:x}, retired_sent {:?}, known seqs {:?}, alive {alive}) from {src} reset something: {after:?}", n.retired_sent, n.tokens.keys().collect::<Vec<_>>());
+                    }
+                }
                 at += 50_000;
                 injected += 1;
             }
@@ -74,7 +83,9 @@ pub fn retired_token_phase(w: &mut crate::world::World, r: &mut Rng, lane: Lane)
     }
     for (ei, ch, _) in alive_before {
         if let Some(c) = w.eps[ei].conns.get(&ch) {
-            if c.app.lost.iter().any(|l| l.contains("Reset")) {
+            // (only resets that one of the offered datagrams caused: a live connection whose peer
+            // is gone can be reset by that peer's endpoint at any time, and legitimately)
+            if c.app.lost.iter().any(|l| l.contains("Reset")) && w.reset_by_injected.contains(&(ei, ch)) {
                 let pair = c.pair;
                 w.mon.violate("C09", format!("conn {ei}/{ch} (pair {pair:x}) was reset by a stateless reset carrying a retired token"));
             }
